@@ -132,11 +132,11 @@ def run(tier):
     rnd2 = random.Random(seed() + 3)
     strata = {}
     for g_ in gen2:
-        if g_["kind"] == "log" or (g_["kind"] == "num" and g_["use"] in ("lcon_lt", "lcon_ne", "lcon_noteq", "inor", "shared", "lcon_lth", "iff_gth")):
+        if g_["kind"] in ("log", "eqpair") or (g_["kind"] == "num" and g_["use"] in ("lcon_lt", "lcon_ne", "lcon_noteq", "inor", "shared", "lcon_lth", "iff_gth")):
             strata.setdefault((g_["kind"], g_["op"], g_["use"]), []).append(g_)
     dcases = []
     for key_ in sorted(strata):
-        for g_ in rnd2.sample(strata[key_], min(len(strata[key_]), 6 if tier == "thorough" else 3 if key_[0] == "log" else 1)):
+        for g_ in rnd2.sample(strata[key_], min(len(strata[key_]), 6 if tier == "thorough" else 3 if key_[0] in ("log", "eqpair") else 1)):
             name_, opts_ = native[0] if rnd2.random() < 0.6 else native[rnd2.randrange(len(native))]
             dcases.append({"id": len(dcases), "gen": g_, "cfgname": name_, "opts": list(opts_)})
     if tier == "thorough":
